@@ -8,6 +8,7 @@ import DrummerVerif.Lemmas.C01M
 import DrummerVerif.Lemmas.C01R
 import DrummerVerif.Lemmas.C05S
 import DrummerVerif.Lemmas.C01T
+import DrummerVerif.Lemmas.Quiet
 /-!
 # C01 — self-healing: the control loop restores every shard after faults stop (PARTIAL: safety invariants and per-round progress lemmas; the convergence bound is decided by the correspondence run, see DESIGN.md)
 
@@ -404,6 +405,43 @@ theorem crashed_member_is_detected :
             ∀ c' ∈ l'.db.image.shards, c'.shardId = s → ∀ r' ∈ c'.replicas, r'.replicaId = rid →
               Replica.failed r' l'.db.tick = true ∨ r'.tick = 0 :=
   @_root_.Drummer.crashed_member_is_detected
+
+/-! ### quiescence: a healed fleet stays healed and receives no request at all
+
+`Loop.Settled`: every view at its group's newest membership version, every running replica caught up with its group (and
+its shard has a view), nothing queued at a NodeHost, nothing scheduled, no stray recorded. `Loop.AllRunning`: every member
+of every group's newest membership runs on the NodeHost the membership names, and that NodeHost is up. `QuietStep`: a
+tick, a report of any NodeHost (reply lost or not), an execution, or a scheduling round (any draws, any map orders) taken
+at a moment when every member is classified healthy. `SameFleet`: same groups, and every address resolves to a NodeHost
+with the same replicas, data and power state. -/
+
+/-- a scheduling round over healthy views with no recorded stray issues nothing, consumes no draw, cannot fail -/
+theorem healthy_round_is_empty :
+    ∀ (d : DB) (cx : Ctx) (draws : List Nat), CtxExact d cx → DB.AllHealthy d → d.image.toKill = [] →
+      maintain cx draws = SRes.ok [] draws :=
+  @_root_.Drummer.healthy_round_is_empty
+
+/-- the timing condition: every member record has a positive report time at most the failure timeout old -/
+theorem recently_reported_is_healthy :
+    ∀ (d : DB), d.tick < 18446744073709551616 →
+      (∀ c ∈ d.image.shards, ∀ r ∈ c.replicas, 0 < r.tick ∧ r.tick ≤ d.tick ∧ d.tick - r.tick ≤ nodeHostTTL) →
+        DB.AllHealthy d :=
+  @_root_.Drummer.recently_reported_is_healthy
+
+/-- in a settled state a NodeHost's report tells Drummer nothing new, is answered with no request, and changes neither the
+views' versions nor the fleet -/
+theorem report_keeps_a_settled_fleet_settled :
+    ∀ (l l' : Loop) (a : Addr) (lost : Bool) (n : Nat), Loop.Settled l → Loop.report l a lost = Outcome.ok (l', n) →
+      Loop.Settled l' ∧ n = 0 ∧ SameFleet l l' :=
+  @_root_.Drummer.report_settled
+
+/-- **a healed fleet stays healed and receives nothing**: from a settled state in which every member is running, along
+ANY sequence of fault-free events, every member keeps running where it was, no request is ever queued at a NodeHost,
+nothing is scheduled and no stray is recorded (witness: `Props/WitnessQuiet`) -/
+theorem healed_fleet_stays_healed :
+    ∀ (l l' : Loop), Loop.Settled l → Loop.AllRunning l → QuietSteps l l' →
+      Loop.Settled l' ∧ Loop.AllRunning l' ∧ SameFleet l l' :=
+  @_root_.Drummer.healed_fleet_stays_healed
 
 end C01
 end Drummer
